@@ -180,6 +180,10 @@ func (p *Program) lemmaDuty(x *Exec, ax *Axiom) (obs []*Obligation, err error) {
 				vars[prm.Name] = Ar{A: Sym("L."+prm.Name, SArr), N: 1 << 30}
 			case "bool":
 				vars[prm.Name] = Sc{Sym("L."+prm.Name, SBool)}
+			case "bv8", "bv16", "bv32":
+				w := 0
+				fmt.Sscanf(prm.Typ, "bv%d", &w)
+				vars[prm.Name] = Sc{Sym("L."+prm.Name, bvSort(w))}
 			default:
 				if t, ok := over[prm.Name]; ok {
 					vars[prm.Name] = Sc{t}
